@@ -1,135 +1,19 @@
 package c01
 
 import (
-	"bytes"
 	"fmt"
-	"math/rand"
-	"strings"
-	"sync"
 
 	"verif/harness/internal/ev"
-	"verif/harness/internal/fx"
-	"verif/harness/internal/s3c"
+	"verif/harness/props/concup"
 )
 
-// Concurrent lane: many clients upload DIFFERENT keys at the same time through the same gateway process, in all
-// payload encodings with chunk sizes around and above the gateway's read buffer; afterwards every acknowledged
-// object is read back through the other process. Fidelity must not depend on what other requests a process is
-// serving at the same moment (shared buffers, pooled readers).
-func runConcurrent(c *ev.Ctx, cf cfgT, round int, seed int64) {
-	id := fmt.Sprintf("%s/concurrent/%d", cf.name, round)
-	if !c.Want(id) {
-		return
-	}
-	env, err := fx.New("c01c-"+cf.name, cf.gw, 2)
-	if err != nil {
-		c.Inconclusive("gateway start (concurrent lane): " + firstLine(err.Error()))
-		return
-	}
-	defer env.Close()
-	root := env.Client(0)
-	const bucket = "concurrent"
-	if r := root.CreateBucket(bucket); !r.OK() {
-		c.Inconclusive("create bucket: " + r.String())
-		return
-	}
-	type up struct {
-		key, enc string
-		body     []byte
-		chunks   []int
-		acked    bool
-		status   string
-	}
-	// the decoders of the streaming encodings keep per-request state across reads: weight them
-	encs := []string{"signed", "unsigned", "chunked", "chunked-tr", "chunked-tr", "unsigned-tr", "unsigned-tr", "unsigned-tr", "unsigned-tr", "chunked"}
-	chunkChoices := [][]int{{1024}, {32768}, {33000}, {70000}, {100003}, {8192, 1, 65537}, {40000, 5}}
-	workers := 16
-	per := 4
-	ups := make([][]*up, workers)
-	var wg sync.WaitGroup
-	for w := 0; w < workers; w++ {
-		wg.Add(1)
-		go func(w int) {
-			defer wg.Done()
-			r := rand.New(rand.NewSource(seed*1009 + int64(w)))
-			cl := env.Client(0) // all through the same process
-			for n := 0; n < per; n++ {
-				u := &up{key: fmt.Sprintf("w%02d/obj-%d", w, n), enc: encs[r.Intn(len(encs))]}
-				u.body = make([]byte, 300000+r.Intn(1700000))
-				r.Read(u.body)
-				// make every object recognisable in a mixed-up result
-				copy(u.body, []byte(fmt.Sprintf("<<%s>>", u.key)))
-				req := &s3c.Req{Method: "PUT", Path: s3c.ObjPath(bucket, u.key), Body: u.body}
-				switch u.enc {
-				case "unsigned":
-					req.PayloadHash = s3c.Unsigned
-				case "chunked", "chunked-tr", "unsigned-tr":
-					u.chunks = chunkChoices[r.Intn(len(chunkChoices))]
-					st := &s3c.Stream{ChunkSizes: u.chunks}
-					switch u.enc {
-					case "chunked":
-						st.Mode = s3c.StreamSigned
-					case "chunked-tr":
-						st.Mode = s3c.StreamSignedTr
-						st.TrailerName = "x-amz-checksum-" + s3c.Algos[r.Intn(len(s3c.Algos))]
-					default:
-						st.Mode = s3c.StreamUnsignTr
-						st.TrailerName = "x-amz-checksum-" + s3c.Algos[r.Intn(len(s3c.Algos))]
-					}
-					req.Stream = st
-				}
-				resp := cl.Do(req)
-				u.acked = resp.OK()
-				u.status = resp.String()
-				ups[w] = append(ups[w], u)
-			}
-		}(w)
-	}
-	wg.Wait()
-	if i, cr := env.Dead(); cr != nil {
-		c.Violation("gateway-died:"+frameOf(cr), id, map[string]any{"gateway": i, "crash": cr.Message, "lane": "concurrent"})
-		return
-	}
-	other := env.Client(1)
-	acked := 0
-	for w := range ups {
-		for _, u := range ups[w] {
-			c.Eval(1)
-			if !u.acked {
-				c.Observe("concurrent lane: upload refused: " + u.enc + " " + u.status)
-				continue
-			}
-			acked++
-			g := other.GetObject(bucket, u.key)
-			det := map[string]any{"lane": "concurrent", "config": cf.name, "key": u.key, "encoding": u.enc, "chunk_sizes": u.chunks, "size": len(u.body), "get": g.String()}
-			if !g.OK() {
-				c.Violation("concurrent:"+u.enc+":unreadable:"+cf.store, id, det)
-				continue
-			}
-			if !bytes.Equal(g.Body, u.body) {
-				// whose bytes are these?
-				at := -1
-				for i := range g.Body {
-					if i >= len(u.body) || g.Body[i] != u.body[i] {
-						at = i
-						break
-					}
-				}
-				det["first_difference_at"] = at
-				det["got_len"] = len(g.Body)
-				if i := bytes.Index(g.Body, []byte("<<w")); i > 0 {
-					det["foreign_marker"] = string(g.Body[i:min(len(g.Body), i+20)])
-				}
-				c.Violation("concurrent:"+u.enc+":body:"+cf.store, id, det)
-				continue
-			}
-			if et := strings.Trim(g.Header.Get("Etag"), `"`); et != s3c.MD5Hex(u.body) {
-				det["etag"] = et
-				c.Violation("concurrent:"+u.enc+":etag:"+cf.store, id, det)
-				continue
-			}
-			c.Distinct(fmt.Sprintf("concurrent|%s|%s|chunks=%v", cf.name, u.enc, u.chunks))
-		}
-	}
-	c.Add("concurrent_uploads_acked", acked)
+// Concurrent lane (shared with C06, see props/concup): many clients upload DIFFERENT keys at the same time through
+// the same gateway process, in all payload encodings with chunk sizes around and above the gateway's read buffer;
+// afterwards every acknowledged object is read back through the other process. Fidelity must not depend on what
+// other requests a process is serving at the same moment (shared buffers, pooled readers).
+func runConcurrent(c *ev.Ctx, cf cfgT, round int, seed int64, mode string) {
+	concup.Run(c, concup.Opt{
+		ID: fmt.Sprintf("%s/concurrent/%d", cf.name, round), Name: cf.name, Store: cf.store, GW: cf.gw,
+		Mode: mode, Seed: seed, PartsToo: true,
+	})
 }
